@@ -125,7 +125,8 @@ Unblock(st) ==
          IF t.raised # "" THEN [t EXCEPT !.raised = "", !.q = <<>>, !.owe = @ - Len(st.q)]     \* D3
          ELSE Unblock(t)
 
-Finish(e, c, t, exc) ==
+Finish(e, c, res, exc) ==
+    \E t \in {res} :
     /\ s' = [t EXCEPT !.obs = <<>>]
     /\ last' = [e |-> e, cmd |-> c, obs |-> t.obs, exc |-> exc, closing |-> t.closing]
     /\ UNCHANGED cfg
@@ -138,7 +139,7 @@ Line(c) ==
     /\ s.up /\ ~s.lost
     /\ IF s.closing THEN Finish("line", c, s, "")            \* LineOnlyReceiver drops lines once loseConnection was called
        ELSE IF s.blocking THEN Finish("line", c, [s EXCEPT !.q = Append(@, c), !.owe = @ + 1], "")
-       ELSE LET t == Do([s EXCEPT !.owe = @ + 1], c) IN
+       ELSE \E t \in {Do([s EXCEPT !.owe = @ + 1], c)} :       \* (bound once: TLC re-evaluates LET bodies at every use)
             IF t.raised = "" THEN Finish("line", c, t, "")
             ELSE IF t.raised = "hard" THEN Finish("line", c, [t EXCEPT !.raised = "", !.owe = @ - 1], "TypeError")
             ELSE Finish("line", c, Reply([t EXCEPT !.raised = ""], Tag(t.raised)), "")
